@@ -4,7 +4,9 @@ A probe item (add_fieldname_suffix '_X', or drop_detection_item) with randomly d
 field-name condition groups (0..2 conditions of every registered condition type, linking and/or/expression,
 negation flags) runs after pre-items that set state, rename a field and change the log source.  Observable: which
 detection items carry the suffix / disappeared after `ProcessingPipeline.apply(rule)`, whether the probe is recorded
-as applied, and the field names of all items afterwards.
+as applied, and the field names of all items afterwards.  A keyword stream runs the probes on a rule that also has
+detection items WITHOUT a field name (keyword lists, single keywords, keywords next to field maps): include_fields
+never holds there, exclude_fields always, and a state condition as everywhere else.
 
 Expected: the Lean specification `Spec/PipeConds.lean` (documented meaning of every condition, documented effect of
 the pre-items on what later conditions see) evaluated by the driver op `gate.case` on the ORIGINAL rule document and
@@ -43,7 +45,9 @@ RULE = ("probe item with three condition groups x {0,1,2 conditions} drawn from 
         "suffix probe on a rule without / with field references, drop probe on a rule with field references, optionally "
         "after the same pipeline object converted another rule; distinct = distinct pipeline; non-trivial = at least one "
         "condition group with >= 1 condition"
-        "; optionally after the same pipeline object converted another rule, with a nested pipeline that reads and overrides state, and with a drop probe on a rule with field references")
+        "; optionally after the same pipeline object converted another rule, with a nested pipeline that reads and overrides state, and with a drop probe on a rule with field references"
+        "; keyword stream: drop / suffix probe with all three groups on a rule that also has keyword detection items (no field name: "
+        "a list of keywords, a single keyword, keywords mixed with field maps)")
 ASSUMPTIONS = [
     "trusted Python: reading of the rule document into the specification's World (flat detection items, value kinds, attribute types) and the pipeline description",
     "regular-expression matching (match_string, include_fields/exclude_fields in re mode) is a parameter of the Lean specification: a table computed by Python re.match per request; the driver refuses a request whose table lacks an entry it needs",
@@ -51,7 +55,7 @@ ASSUMPTIONS = [
     "processing_state: ordering a string against a number is not generated (undocumented; the code raises TypeError)",
     "rule_attribute: numeric strings are [+-]?digits, dates YYYY-MM-DD; attributes holding None/objects count as unsupported",
     "match_value with a boolean parameter is not generated against items holding the numbers 0/1",
-    "1:1 field_name_mapping only; keyword items (field None) and the rule's fields list are not generated",
+    "1:1 field_name_mapping only; the rule's fields list is not generated; keyword items (field None) in the keyword stream only",
     "conditions of an item are evaluated on the world left by the EARLIER items; the code's own tracking moves while the probe runs are not observable on the generated documents",
 ]
 
@@ -64,6 +68,11 @@ RULEDOC = {"title": "t", "level": "high", "status": "test", "date": "2024-01-05"
 RULEDOC_REF = copy.deepcopy(RULEDOC)
 RULEDOC_REF["detection"]["sel"]["fieldF|fieldref"] = "fieldA"
 RULEDOC_REF["detection"]["sel"]["fieldG|fieldref"] = "fieldB"
+# a rule that also has keyword detection items (no field name): a list of keywords is ONE item with several values, a keyword
+# next to field maps and a single keyword are items of their own.  A field-name condition sees "no name" there.
+RULEDOC_KW = copy.deepcopy(RULEDOC)
+RULEDOC_KW["detection"].update({"kw": ["plain", "x*", 1], "mix": [{"fieldA": "zz"}, "valueA"], "one": "y",
+                                "condition": "sel and not flt or kw or mix or one"})
 # a rule converted BEFORE the probed one with the same pipeline object: nothing of it may remain visible
 PRIOR_DOC = {"title": "prior", "level": "low", "status": "stable", "date": "2020-02-02", "tags": [], "references": ["zz"], "score": 9, "ratio": 0.5,
              "logsource": {"category": "zzz", "product": "other"},
@@ -205,12 +214,25 @@ def gen_cases(tier, seed, gen, effort):
             c["doc"] = "corr"                      # a correlation rule (unresolved references): rule-level gate only
             c["det"] = {"conds": [], "neg": False, "link": None}
         cases.append(c)
+    # keyword stream: the probed rule has detection items without a field name
+    rnd2 = random.Random(seed * 2089 + 1313)
+    for _ in range((1200 if not thorough else 15000) * effort):
+        pre = {"state": rnd2.random() < 0.7, "state_cond": rnd2.choice([None, {"type": "logsource", "category": "cat"}, {"type": "logsource", "category": "zzz"}]),
+               "map": rnd2.random() < 0.7, "logsrc": rnd2.random() < 0.4, "n5": rnd2.random() < 0.3, "nest": rnd2.random() < 0.25}
+        c = {"pre": pre, "rule": gen_group(rnd2, RULE_CONDS), "det": gen_group(rnd2, DET_CONDS), "field": gen_group(rnd2, FIELD_CONDS), "doc": "kw"}
+        if rnd2.random() < 0.7:
+            c["probe"] = "drop"
+        if rnd2.random() < 0.2:
+            c["prior"] = True
+        cases.append(c)
     return cases, False
 
 
 def doc_of(case):
     if case.get("doc") == "corr":
         return CORR_DOC
+    if case.get("doc") == "kw":
+        return RULEDOC_KW
     return RULEDOC_REF if case.get("probe") == "drop" or case.get("doc") == "ref" else RULEDOC
 
 
@@ -273,7 +295,7 @@ def run_impl(case):
             from sigma.correlations import SigmaCorrelationRule
             rule = SigmaCorrelationRule.from_dict(copy.deepcopy(doc_of(case)))
             pl.apply(rule)
-            return {"outcome": "ok", "fields": [], "sel": [], "flt": [], "applied": sorted(x for x in pl.applied_ids if x != "nst"), "prior_error": prior_error, "group_by": list(rule.group_by or [])}
+            return {"outcome": "ok", "fields": [], "dets": {}, "applied": sorted(x for x in pl.applied_ids if x != "nst"), "prior_error": prior_error, "group_by": list(rule.group_by or [])}
         rule = SigmaRule.from_dict(copy.deepcopy(doc_of(case)))
         pl.apply(rule)
         out = []
@@ -284,10 +306,12 @@ def run_impl(case):
                     walk(it)
                 else:
                     out.append(it.field)
-        walk(rule.detection.detections["sel"])
-        nsel = len(out)
-        walk(rule.detection.detections["flt"])
-        return {"outcome": "ok", "fields": out, "sel": out[:nsel], "flt": out[nsel:], "applied": sorted(x for x in pl.applied_ids if x != "nst"), "prior_error": prior_error}
+        dets = {}
+        for name, d in rule.detection.detections.items():      # every detection, in document order
+            n0 = len(out)
+            walk(d)
+            dets[name] = out[n0:]
+        return {"outcome": "ok", "fields": out, "dets": dets, "applied": sorted(x for x in pl.applied_ids if x != "nst"), "prior_error": prior_error}
     except Exception as e:
         return {"outcome": outcome_of_exception(e), "stage": "apply", "msg": str(e)[:160], "prior_error": prior_error}
 
@@ -298,7 +322,9 @@ def flat_items(doc):
     out = []
 
     def walk(name, d):
-        if isinstance(d, list):
+        if isinstance(d, list) and d and not any(isinstance(x, (dict, list)) for x in d):
+            out.append((name, None, list(d), False))        # a list of keywords: one item without field name
+        elif isinstance(d, list):
             for x in d:
                 walk(name, x)
         elif isinstance(d, dict):
@@ -306,6 +332,8 @@ def flat_items(doc):
                 field, _, mod = k.partition("|")
                 vals = v if isinstance(v, list) else [v]
                 out.append((name, field, list(vals), mod == "fieldref"))
+        else:
+            out.append((name, None, [d], False))            # a single keyword
     for name, d in doc.get("detection", {}).items():
         if name != "condition":
             walk(name, d)
@@ -363,7 +391,7 @@ def unset_attrs(doc):
 
 
 def world_json(doc, seeded_applied=None):
-    items = [{"det": cps(d), "field": cps(f), "values": [value_json(v, ref) for v in vals],
+    items = [{"det": cps(d), "field": cps(f) if f is not None else None, "values": [value_json(v, ref) for v in vals],
               "applied": [cps(x) for x in (seeded_applied or {}).get((d, f), [])]} for d, f, vals, ref in flat_items(doc)]
     corr = "correlation" in doc
     attrs = [[cps(k), attr_json(k, v)] for k, v in doc.items() if k not in ("logsource", "detection", "tags")]
@@ -424,7 +452,8 @@ def re_table(case):
     doc = doc_of(case)
     names, strings = set(), set()
     for _, f, vals, ref in flat_items(doc):
-        names.add(f)
+        if f is not None:
+            names.add(f)
         for v in vals:
             (names if ref else strings).add(v) if isinstance(v, str) else None
     names |= {"mappedB"}
@@ -616,7 +645,9 @@ def det_cond(w, it, c):
 def field_cond_name(w, name, c):
     t = c["type"]
     if t in ("include_fields", "exclude_fields"):
-        if c.get("mode") == "re":
+        if name is None:                 # a keyword item has no name: it is on no list
+            r = False
+        elif c.get("mode") == "re":
             r = any(re.match(p, name) for p in c["fields"])
         else:
             r = name in c["fields"]
@@ -649,8 +680,8 @@ def uncps_(a):
 
 def observed(case, impl, before):
     if case.get("probe") == "drop":
-        return [b["field"] not in impl[b["det"]] for b in before]
-    return [f.endswith("_X") for f in impl["fields"]]
+        return [b["field"] not in impl["dets"][b["det"]] for b in before]
+    return [f is not None and f.endswith("_X") for f in impl["fields"]]
 
 
 def judge(case, impl, reply):
@@ -692,7 +723,7 @@ def judge(case, impl, reply):
             it = w["items"][i]
             g = reply["groups"]
             return (f"probe {probe_yaml} {'acted on' if got[i] else 'did not act on'} detection item "
-                    f"{before[i]['det']}.{before[i]['field']} = {it['values'] or ['fieldref ' + x for x in it['refs']]} although its conditions evaluate to {want[i]} there "
+                    f"{before[i]['det']}.{before[i]['field'] if before[i]['field'] is not None else '<keyword item, no field name>'} = {it['values'] or ['fieldref ' + x for x in it['refs']]} although its conditions evaluate to {want[i]} there "
                     f"[rule group {rep['onRule']}, detection-item group {g['det'][i]}, field-name group on the item {g['fieldOnItem'][i]}, on its field name {g['fieldOnName'][i]}; "
                     f"conditions one by one: rule {reply['leaves']['rule']}, detection item {reply['leaves']['det'][i]}, field name {reply['leaves']['fieldOnItem'][i]}] {pre_txt}")
         if ("probe" in impl["applied"]) != rep["onRule"]:
@@ -703,9 +734,9 @@ def judge(case, impl, reply):
         after = {}
         for a in rep["after"]:
             after.setdefault(uncps_(a["det"]), []).append(uncps_(a["field"]))
-        for d in ("sel", "flt"):
-            if impl[d] != after.get(d, []):
-                return f"field names of detection {d} after the pipeline: {impl[d]}, expected {after.get(d, [])} for pipeline {pipeline_dict(case)['transformations']}"
+        for d in impl["dets"]:
+            if impl["dets"][d] != after.get(d, []):
+                return f"field names of detection {d} after the pipeline: {impl['dets'][d]}, expected {after.get(d, [])} for pipeline {pipeline_dict(case)['transformations']}"
         return None
     what = compare(reply)
     if what is not None:
